@@ -115,8 +115,12 @@ func expandNamedUUID(column *ColumnSchema, value interface{}, namedUUIDs map[str
 					m.GoMap[k] = newUUID
 				}
 			}
+			return value
 		}
-	} else if keyType == TypeUUID {
+	}
+	// a set, or a single atom, given for a map column holds keys: the value
+	// of a "delete" mutation (RFC 7047 5.1)
+	if keyType == TypeUUID {
 		if ovsSet, ok := value.(OvsSet); ok {
 			for i, s := range ovsSet.GoSet {
 				if newUUID, ok := expandNamedUUIDAtomic(keyType, s, namedUUIDs); ok {
